@@ -32,6 +32,7 @@ structure BState where
   tight : Bool
   parentType : String
   tokens : List Tok
+  listIndent : Int := -1   -- `state.listIndent` (read and written by the list rule only)
 deriving Repr
 
 abbrev BRule := BState → Nat → Nat → Bool → Except PyErr (Bool × BState)
